@@ -816,6 +816,7 @@ def check_C11(tier, seed):
             pass
     import lx as lxl
     fams = [ts for ts in lxl.FAMILIES if not any(t[0] == 'C' and t[1] == ord('.') for t in ts)]      # a term printed as "." is indistinguishable from the item dot
+    fams = [ts for ts in fams if pipeline.unique_term_names(ts)]          # (symbols are resolved by name: equal names alias)
     for i, ts in enumerate(fams[:5 if tier == 'quick' else 17]):          # richer LEXICAL ANALYZER sections (string / regex terms)
         entries.append(pipeline.lex_entry('c11lex%d' % i, ts))
     live, problems, sums, runs, st, tr = run_diagcheck(entries, 'C11', tlc_procs=4 if tier == 'quick' else 8)
@@ -1250,6 +1251,8 @@ def check_C04(tier, seed):
         if lid in seen_pick:
             continue
         seen_pick.add(lid)
+        if not pipeline.unique_term_names(ts):
+            continue
         e = pipeline.lex_entry('ls' + lid, ts)
         special = set(b'[]()*+?|{}\\^-.')
         alpha = sorted({b for t in ts for b in ([t[1]] if t[0] == 'C' else t[1]) if 32 < b < 127 and (t[0] != 'R' or b not in special)} | {ord('a'), ord('1'), ord('+'), ord('?')})[:6]
@@ -1767,7 +1770,7 @@ def check_C12(tier, seed):
         if d['why'][0] == 'capacity':
             out.violations.append({'summary': {'terms': lxl.set_text(ljobs[int(lid[1:])][1]), 'class': 'lexer automaton larger than the sum of the term sizes', 'detail': d['why']}, 'kind': 'lx', 'terms': ljobs[int(lid[1:])][1]})
     # real parsers over term sets: the lexer is built into a table of exactly that capacity (bounds hook)
-    lex_entries = [pipeline.lex_entry('cap%d' % i, ts) for i, ts in enumerate(lxl.FAMILIES[:6 if tier == 'quick' else 17])]
+    lex_entries = [pipeline.lex_entry('cap%d' % i, ts) for i, ts in enumerate(lxl.FAMILIES[:6 if tier == 'quick' else 17]) if pipeline.unique_term_names(ts)]
     # ---- (c) default LR caps, (d) custom limits around the need
     names = ['expr_strat', 'paren_list', 'closure_memo', 'lr1_not_lalr', 'nullable_prefix'] + ([] if tier == 'quick' else ['first_cycle', 'll_pal', 'two_lists', 'expr_amb', 'unit_chain'])
     base = [pipeline.gen_entry(cat[n], gid=n + '@deflim') for n in names]
